@@ -163,3 +163,77 @@ func TestLoginHostileKey(t *testing.T) {
 	}
 	vh.Check(t, "TestLoginHostileKey", vh.N(300, 8000), gen, runHostileLogin)
 }
+
+// ---- the capabilities the server sends back with the login acknowledgement are server input
+// as well: any type bytes, any mask lengths, types repeated, in the first or the last response
+// of an otherwise valid encrypted login
+
+type hostileCapsCase struct {
+	Masks []rc.CapMask `json:"capability_masks"`
+	First bool         `json:"also_in_first_response"`
+	Twice bool         `json:"token_sent_twice"`
+}
+
+func runHostileCaps(c hostileCapsCase) *vh.Failure {
+	ack := func(st uint8) rc.P {
+		return rc.P{LoginAck: &rc.LoginAck{Status: st, Version: [4]byte{5, 0, 0, 0}, Name: "ASE", ProgVer: [4]byte{16, 0, 0, 0}}}
+	}
+	done := rc.P{Done: &rc.Done{Tok: rc.TokDone}}
+	key := loginpeer.PoolKey(1024, 0)
+	f := rc.Fmt{Tok: rc.TokParamFmt, Cols: []rc.Col{{Name: "c", T: rc.TInt4}, {Name: "k", T: rc.TLongBinary, MaxLen: 2147483647}, {Name: "n", T: rc.TLongBinary, MaxLen: 2147483647}}}
+	row := rc.Row{Tok: rc.TokParams, Cells: []rc.Cell{{V: rc.V{T: rc.TInt4, I: 1}}, {V: rc.V{T: rc.TLongBinary, B: []byte(key.PubPEM)}}, {V: rc.V{T: rc.TLongBinary, B: []byte("nonce-nonce")}}}}
+	caps := rc.P{Cap: &rc.Capability{Masks: c.Masks}}
+	s := loginpeer.Script{R1: []rc.P{ack(rc.LogNegotiate), {Msg: &rc.Msg{Status: 1, ID: rc.MsgSecEncrypt4}}, {Fmt: &f}, {Row: &row}, done}}
+	if c.First {
+		s.R1 = []rc.P{ack(rc.LogNegotiate), caps, {Msg: &rc.Msg{Status: 1, ID: rc.MsgSecEncrypt4}}, {Fmt: &f}, {Row: &row}, done}
+	}
+	s.R2 = []rc.P{ack(rc.LogSucceed), caps, done}
+	if c.Twice {
+		s.R2 = []rc.P{ack(rc.LogSucceed), caps, caps, done}
+	}
+	res := loginpeer.RunPatient(loginpeer.Config{User: "sa", Password: "secret", Host: "h", App: "a", Server: "s"}, s, 2*time.Second)
+	how := fmt.Sprintf("valid encrypted login answered with the capabilities %s (also in the first response: %v, token twice: %v)", capsText(c.Masks), c.First, c.Twice)
+	if res.Panic != nil {
+		return vh.Failf("C10/panic-login-capabilities", "%s: Login panicked: %v", how, res.Panic)
+	}
+	if res.TimedOut {
+		return vh.Failf("C10/hang-login-capabilities", "%s: Login did not return", how)
+	}
+	if !res.GotMsg2 && !c.First {
+		vh.HarnessBug("%s: the login did not get as far as the second message: %v", how, res.Err)
+	}
+	if res.Err == nil {
+		vh.Label("login:hostile-capabilities-accepted")
+	} else {
+		vh.Label("login:hostile-capabilities-rejected")
+	}
+	vh.NonTrivial(fmt.Sprintf("caps|%s|%v|%v", capsText(c.Masks), c.First, c.Twice))
+	return nil
+}
+
+func capsText(ms []rc.CapMask) string {
+	s := ""
+	for _, m := range ms {
+		s += fmt.Sprintf("[type %d mask %x]", m.Type, m.Mask)
+	}
+	if s == "" {
+		return "(none)"
+	}
+	return s
+}
+
+func TestLoginHostileCapabilities(t *testing.T) {
+	gen := func(rt *rapid.T) hostileCapsCase {
+		var c hostileCapsCase
+		n := rapid.IntRange(0, 5).Draw(rt, "masks")
+		for i := 0; i < n; i++ {
+			m := rc.CapMask{Type: uint8(rapid.OneOf(rapid.IntRange(0, 4), rapid.IntRange(0, 255)).Draw(rt, "type"))}
+			m.Mask = rapid.SliceOfN(rapid.Byte(), 0, rapid.SampledFrom([]int{0, 1, 2, 14, 16, 40}).Draw(rt, "masklen")).Draw(rt, "mask")
+			c.Masks = append(c.Masks, m)
+		}
+		c.First = rapid.IntRange(0, 3).Draw(rt, "first") == 0
+		c.Twice = rapid.IntRange(0, 3).Draw(rt, "twice") == 0
+		return c
+	}
+	vh.Check(t, "TestLoginHostileCapabilities", vh.N(400, 10000), gen, runHostileCaps)
+}
